@@ -61,7 +61,7 @@ pub fn fresh_path(tag: &str) -> String {
 // ------------------------------------------------------------------------------------------
 
 static REAPING: AtomicUsize = AtomicUsize::new(0);
-const MAX_REAPING: usize = 96;
+const MAX_REAPING: usize = 320;
 
 pub fn reap<T: Send + 'static>(store: T, remove: Option<String>) {
     while REAPING.load(Ordering::Acquire) >= MAX_REAPING {
@@ -327,3 +327,37 @@ pub fn threads() -> usize {
 }
 
 pub type Shared<T> = Arc<Mutex<T>>;
+
+// ------------------------------------------------------------------------------------------
+// CPU visibility: feoxdb sizes its shard/worker pool from num_cpus::get(), which follows the
+// calling thread's affinity mask. Spawned threads inherit the mask.
+// ------------------------------------------------------------------------------------------
+
+static CPU_ROTOR: AtomicUsize = AtomicUsize::new(0);
+
+fn all_cpus() -> usize {
+    static N: OnceLock<usize> = OnceLock::new();
+    *N.get_or_init(|| unsafe { libc::sysconf(libc::_SC_NPROCESSORS_CONF) as usize }.max(1))
+}
+
+/// Run `f` with exactly `visible` CPUs visible to the calling thread (so a store opened inside
+/// gets max(1, visible/2) workers), then restore full visibility.
+pub fn with_visible_cpus<T>(visible: usize, f: impl FnOnce() -> T) -> T {
+    let total = all_cpus();
+    if visible == 0 || visible >= total {
+        return f();
+    }
+    unsafe {
+        let mut old: libc::cpu_set_t = std::mem::zeroed();
+        libc::sched_getaffinity(0, std::mem::size_of::<libc::cpu_set_t>(), &mut old);
+        let mut set: libc::cpu_set_t = std::mem::zeroed();
+        let start = CPU_ROTOR.fetch_add(visible, Ordering::Relaxed);
+        for i in 0..visible {
+            libc::CPU_SET((start + i) % total, &mut set);
+        }
+        libc::sched_setaffinity(0, std::mem::size_of::<libc::cpu_set_t>(), &set);
+        let r = f();
+        libc::sched_setaffinity(0, std::mem::size_of::<libc::cpu_set_t>(), &old);
+        r
+    }
+}
